@@ -86,11 +86,16 @@ Definition destroy_leaves_nothing : Prop :=
 Definition launched_killed (e : N) (c : cspec) (u : out) : Prop :=
   forall id, In id (o_launch u) -> In id (o_kills u).
 
+(* ... or, never having become owned, is still in the roster, unowned, for the next cleanup *)
+Definition launched_handled (s' : st) (u : out) : Prop :=
+  forall id, In id (o_launch u) ->
+             In id (o_kills u) \/ exists t, In t (s_roster s') /\ t_id t = id /\ t_owner t = None.
+
 Definition failed_creation_leaves_nothing : Prop :=
   forall s e c s' u,
     reachable s -> wf_op s (OCreate e c) = true ->
     step s (OCreate e c) = (s', u) -> o_rc u = 1 ->
-    nothing_left e s' /\ launched_killed e c u.
+    nothing_left e s' /\ launched_handled s' u.
 
 (* full statement of the detector clause of C04 *)
 Definition detectors_exclusive : Prop :=
